@@ -52,6 +52,7 @@ impl<'de, R: Reader<'de>> Parser<R> {
                 && follow_ok(old(self).read.data(), value_end(old(self).read.data(), old(self).read.idx() as int).unwrap())
                 ==> res.is_ok() && final(self).read.idx() == value_end(old(self).read.data(), old(self).read.idx() as int).unwrap()
                     && res.unwrap().0@ == old(self).read.data().subrange(ws_end(old(self).read.data(), old(self).read.idx() as int), value_end(old(self).read.data(), old(self).read.idx() as int).unwrap()),
+            res.is_err() ==> err_ok(res->Err_0, old(self).read.data()),
     { unimplemented!() }
 
 //@extract file=src/parser.rs impl="Parser<R>" fn=parse_array_elem_lazy
@@ -89,6 +90,8 @@ impl<'de, R: Reader<'de>> Parser<R> {
                     }
                 }
             }),
+            // every error is made by Parser::error: positioned inside the input (C20)
+            res.is_err() ==> err_ok(res->Err_0, old(self).read.data()),
 //@lowerguards /match self.skip_space_peek\(\) \{/
 //@before /match self.skip_space_peek\(\) \{/
         proof { lemma_ws_end_bounds(self.read.data(), self.read.idx() as int); }
@@ -105,6 +108,7 @@ impl<'de, R: Reader<'de>> Parser<R> {
             res.is_ok() ==> str_end(old(self).read.data(), old(self).read.idx() as int) == Some(final(self).read.idx() as int),
             str_end(old(self).read.data(), old(self).read.idx() as int).is_none() ==> res.is_err(),
             final(self).read.idx() >= old(self).read.idx(),
+            res.is_err() ==> err_ok(res->Err_0, old(self).read.data()),
     { unimplemented!() }
 
 //@extract file=src/parser.rs impl="Parser<R>" fn=parse_entry_lazy
@@ -158,6 +162,8 @@ impl<'de, R: Reader<'de>> Parser<R> {
                     }
                 }
             }),
+            // every error is made by Parser::error: positioned inside the input (C20)
+            res.is_err() ==> err_ok(res->Err_0, old(self).read.data()),
 //@before /match \(?self.skip_space\(\)/
         proof { lemma_ws_end_bounds(self.read.data(), self.read.idx() as int); }
 //@before /let parsed = self.parse_str\(strbuf\)\?;/
